@@ -450,3 +450,66 @@ func (w *World) StructFieldStores(fns []*ssa.Function, typs map[string]bool) []s
 	}
 	return out
 }
+
+// RetLeavesGuarded: every value that can flow (through phis) into result #idx of fn and whose rendering does NOT match
+// exceptRe enters under gate g: either the CFG edge through which it enters its phi, or the return itself, is
+// unreachable once g's edges are cut. Used for "the raw X is only returned when …" rows of view functions.
+func RetLeavesGuarded(w *World, id, kind, fnName string, idx int, exceptRe string, g Gate, min int, what string) []Result {
+	fn := w.Fn(fnName)
+	if fn == nil {
+		return anchorMissing(id, kind, fnName)
+	}
+	construct := kind + ":" + fnName + fmt.Sprintf("#ret%d¬{%s}⇐", idx, exceptRe) + g.Text
+	except := regexp.MustCompile(exceptRe)
+	cut := w.GateCut(fn, g)
+	var out []Result
+	n := 0
+	for _, b := range fn.Blocks {
+		if len(b.Instrs) == 0 || (len(b.Preds) == 0 && b.Index != 0) {
+			continue
+		}
+		ret, ok := b.Instrs[len(b.Instrs)-1].(*ssa.Return)
+		if !ok {
+			continue
+		}
+		i := idx
+		if i < 0 {
+			i = len(ret.Results) + i
+		}
+		if i < 0 || i >= len(ret.Results) {
+			continue
+		}
+		retReach := InstrReachable(ret, cut)
+		seen := map[ssa.Value]bool{}
+		var visit func(v ssa.Value, edgeReach bool)
+		visit = func(v ssa.Value, edgeReach bool) {
+			if phi, ok := v.(*ssa.Phi); ok {
+				if seen[v] {
+					return
+				}
+				seen[v] = true
+				for k, e := range phi.Edges {
+					visit(e, edgeReach && EdgeReachable(phi.Block().Preds[k], phi.Block(), cut))
+				}
+				return
+			}
+			r := w.RenderD(v, 6)
+			if except.MatchString(r) {
+				return
+			}
+			n++
+			if retReach && edgeReach {
+				out = append(out, one(id, kind, construct, Violated, n, w.InstrPos(ret),
+					fmt.Sprintf("%s: `%s` can be returned as result #%d of %s without passing {%s}", what, clip(r, 100), i, fnName, g.Text)))
+			}
+		}
+		visit(resolveSpilled(ret, ret.Results[i]), true)
+	}
+	if n < min {
+		return []Result{one(id, kind, construct, Violated, n, w.Pos(fn.Pos()), fmt.Sprintf("vacuous: %d guarded return values found, expected at least %d", n, min))}
+	}
+	if len(out) == 0 {
+		out = append(out, one(id, kind, construct, Discharged, n, w.Pos(fn.Pos()), what))
+	}
+	return out
+}
